@@ -55,6 +55,14 @@ def step (cap : Nat) (es : Entries) : Op → Entries × Out
   | .flush => ([], .unit)
   | .count => (es, .int es.length)
 
+/-- A whole history: final entries and the answers, in order. -/
+def run (cap : Nat) (es : Entries) : List Op → Entries × List Out
+  | [] => (es, [])
+  | op :: ops =>
+    let (es', o) := step cap es op
+    let (es'', os) := run cap es' ops
+    (es'', o :: os)
+
 /-- `NewLRU n` is rejected exactly for `n ≤ 0`. -/
 def createOk (n : Int) : Bool := decide (n > 0)
 
